@@ -106,6 +106,48 @@ static void *tm_worker(void *p) {
   return NULL;
 }
 
+/* ---------------------------------------------------------------- thread-private crystal arrays fed from files
+ * Documented as needing no lock: every thread owns its array.  An episode = ArrayInit, Crystal_ReadFile of one of a few small
+ * files written before the threads start (well-formed with 1 / 3 / 6 definitions, long names, one corrupt, one duplicate-defining),
+ * listing, look-ups, ArrayFree; its digest is compared with the digest of the same episode executed serially. */
+#define NFILES 6
+static char tm_fpath[NFILES][700]; static uint64_t tm_fref[NFILES]; static long tm_fileeps = 0; static atomic_long tm_fmis, tm_fdone; static atomic_int tm_fbad = -1;
+static void tm_write_files(const char *base) {
+  static const char *body[NFILES] = {
+    "#F xv\n#S 14 XvOne\n#UCELL 5.5 6.25 7.125 80.5 95.25 101.75\n#N 5\n#L Z F X Y Z\n14 1.0 0 0 0\n8 0.5 0.25 0.5 0.75\n#EOF\n",
+    "#F xv\n#S 1 XvC\n#UCELL 3.5 3.5 3.5 90 90 90\n#L x\n6 1 0 0 0\n#S 2 XvA\n#UCELL 4.25 4.5 4.75 90 100 90\n#L x\n29 1 0 0 0\n29 1 0.5 0.5 0\n#S 3 XvB\n#UCELL 6 6 9 90 90 120\n#L x\n13 0.75 0.125 0.25 0.375\n#EOF\n",
+    "#F xv\n#S 9 Quartz_like\n#UCELL 4.9 4.9 5.4 90 90 120\n#L x\n14 1 0.47 0 0.667\n8 1 0.41 0.27 0.78\n#S 8 Rutile_like\n#UCELL 4.59 4.59 2.96 90 90 90\n#L x\n22 1 0 0 0\n8 1 0.3 0.3 0\n"
+      "#S 7 Mmm\n#UCELL 3 4 5 90 90 90\n#L x\n26 1 0 0 0\n#S 6 Zz9\n#UCELL 7 7 7 60 60 60\n#L x\n3 1 0 0 0\n#S 5 Aa0\n#UCELL 2.5 2.5 2.5 90 90 90\n#L x\n4 1 0 0 0\n#S 4 K2\n#UCELL 8 9 10 91 92 93\n#L x\n19 0.5 0.1 0.2 0.3\n#EOF\n",
+    "#F xv\n#S 11 ABCDEFGHIJKLMNOPQRSTUVWXYZ\n#UCELL 5 5 5 90 90 90\n#L x\n14 1 0 0 0\n#S 12 ABCDEFGHIJKLMNOPQRS\n#UCELL 5 5 6 90 90 90\n#L x\n32 1 0 0 0\n#EOF\n",
+    "#F xv\n#S 14 XvGood\n#UCELL 5.5 6.25 7.125 80.5 95.25 101.75\n#L x\n14 1.0 0 0 0\n#S 6 XvBad\n#USYSTEM no cell line\n#L x\n6 1 0 0 0\n#EOF\n",
+    "#F xv\n#S 14 Twice\n#UCELL 5 5 5 90 90 90\n#L x\n14 1 0 0 0\n#S 15 Twice\n#UCELL 4 4 4 90 90 90\n#L x\n14 1 0 0 0\n#EOF\n" };
+  int j; for (j = 0; j < NFILES; j++) { FILE *f; snprintf(tm_fpath[j], sizeof tm_fpath[j], "%s.cr%d.dat", base, j); f = fopen(tm_fpath[j], "w"); if (f) { fputs(body[j], f); fclose(f); } }
+}
+static uint64_t tm_file_episode(int j, int cap) {
+  uint64_t h = XV_FNV0; xrl_error *e = NULL; int rv, n = -1, k; char **l; Crystal_Array *a = Crystal_ArrayInit(cap, NULL);
+  if (!a) return 1;
+  rv = Crystal_ReadFile(tm_fpath[j], a, &e);
+  h = xv_fnv(&rv, sizeof rv, h);
+  if (e) { int c = (int)e->code; h = xv_fnv(&c, sizeof c, h); h = xv_fnv(e->message, strlen(e->message), h); xrl_error_free(e); }
+  l = Crystal_GetCrystalsList(a, &n, NULL); h = xv_fnv(&n, sizeof n, h);
+  for (k = 0; l && l[k]; k++) { Crystal_Struct *g = Crystal_GetCrystal(l[k], a, NULL); h = xv_fnv(l[k], strlen(l[k]) + 1, h);
+    if (g) { double d = Crystal_dSpacing(g, 1, 1, 1, NULL); h = xv_fnv(&g->volume, sizeof(double), h); h = xv_fnv(&d, sizeof d, h); h = xv_fnv(&g->n_atom, sizeof(int), h); Crystal_Free(g); } else h ^= 0x5555;
+    xrlFree(l[k]); }
+  if (l) xrlFree(l);
+  Crystal_ArrayFree(a);
+  return h;
+}
+static void *tm_file_worker(void *p) {
+  tm_targ *a = (tm_targ *)p; long k; xv_rng r; r.s = tm_seed * 0x2545F4914F6CDD1DULL + (uint64_t)(a->tid + 7) * 0x9E3779B97F4A7C15ULL;
+  tm_tid = a->tid;
+  pthread_barrier_wait(&tm_bar);
+  for (k = 0; k < tm_fileeps; k++) { int j = (int)xv_below(&r, NFILES); uint64_t h = tm_file_episode(j, (int)xv_below(&r, 4));
+    atomic_fetch_add(&tm_fdone, 1);
+    if (h != tm_fref[j]) { atomic_fetch_add(&tm_fmis, 1); atomic_store(&tm_fbad, j); } }
+  tm_tid = -1;
+  return NULL;
+}
+
 int main(int argc, char **argv) {
   FILE *f; long k, slen, nondet = 0, total = 0, mism = 0, errs = 0, errapi = 0; char *sbuf; int a, t, cold = 0; pthread_t *th; tm_targ *ta; int nsig = 0; const char *refresp = NULL, *refmsg = NULL;
   if (argc < 5 || strcmp(argv[1], "run")) { fprintf(stderr, "usage: thrmon run req str report [--threads N --calls M --yield P]\n"); return 2; }
@@ -115,6 +157,7 @@ int main(int argc, char **argv) {
     else if (!strcmp(argv[a], "--threads") && a + 1 < argc) tm_threads = atoi(argv[++a]);
     else if (!strcmp(argv[a], "--calls") && a + 1 < argc) tm_calls = atol(argv[++a]);
     else if (!strcmp(argv[a], "--yield") && a + 1 < argc) tm_yield = atoi(argv[++a]);
+    else if (!strcmp(argv[a], "--fileeps") && a + 1 < argc) tm_fileeps = atol(argv[++a]);
     else return 2;
   }
   tm_seed = xv_seed_env();
@@ -151,9 +194,17 @@ int main(int argc, char **argv) {
   pthread_barrier_init(&tm_bar, NULL, tm_threads);
   for (t = 0; t < tm_threads; t++) { ta[t].tid = t; if (pthread_create(&th[t], NULL, tm_worker, &ta[t])) return 2; }
   for (t = 0; t < tm_threads; t++) pthread_join(th[t], NULL);
+  if (tm_fileeps > 0) {       /* second phase: thread-private crystal arrays read from files (serial digests first) */
+    int j, nd = 0; tm_write_files(argv[4]);
+    for (j = 0; j < NFILES; j++) { tm_fref[j] = tm_file_episode(j, 2); if (tm_file_episode(j, 0) != tm_fref[j]) nd++; }
+    nondet += nd;
+    for (t = 0; t < tm_threads; t++) if (pthread_create(&th[t], NULL, tm_file_worker, &ta[t])) return 2;
+    for (t = 0; t < tm_threads; t++) pthread_join(th[t], NULL);
+    for (j = 0; j < NFILES; j++) unlink(tm_fpath[j]);
+  }
   xrl_verif_hook = NULL;
   f = fopen(argv[4], "w"); if (!f) return 2;
-  fprintf(f, "{\"threads\":%d,\"requests\":%ld,\"cold\":%d,\"serial_nondeterministic\":%ld,\"locale\":\"%s\",\"bad\":[", tm_threads, tm_n, cold, nondet, setlocale(LC_ALL, NULL));
+  fprintf(f, "{\"file_episodes\":%ld,\"file_mismatches\":%ld,\"file_bad\":%d,\"threads\":%d,\"requests\":%ld,\"cold\":%d,\"serial_nondeterministic\":%ld,\"locale\":\"%s\",\"bad\":[", (long)atomic_load(&tm_fdone), (long)atomic_load(&tm_fmis), atomic_load(&tm_fbad), tm_threads, tm_n, cold, nondet, setlocale(LC_ALL, NULL));
   for (t = 0, a = 0; t < tm_threads; t++) { total += ta[t].calls; mism += ta[t].mismatches; errs += ta[t].errors; errapi += ta[t].errapi;
     if (ta[t].first_bad_req >= 0) { const tm_res *r = &tm_ref[ta[t].first_bad_req], *b = &ta[t].bad;
       /* values as bit patterns: printf of a double follows the process locale (decimal comma under xx_VERIF) */
